@@ -122,8 +122,14 @@ func VerifH13b() {
 		switch types[i] {
 		case 'd':
 			b = nondetBytes(vChoose(N + 1))
-		case 'f', 'Q':
+		case 'Q':
 			b = vCStr([]byte("r"))
+		case 'f':
+			// the reason, and possibly surplus bytes behind its terminator
+			b = vCat(vCStr([]byte("r")), nondetBytes(vChoose(3)))
+			if len(b) > 2 {
+				vReach("copyfail-with-surplus-behind-the-reason")
+			}
 		}
 		payloads = append(payloads, b)
 		input = append(input, vMsgBytes(types[i], b)...)
